@@ -8,6 +8,8 @@ from ksiverif.runner import Config, Engine  # noqa: E402
 from ksiverif import core, pki, pubfile as PF, sig as S  # noqa: E402
 from ksiverif.gen import hx, tlv  # noqa: E402
 import tables  # noqa: E402
+sys.path.insert(0, os.path.dirname(os.path.abspath(__file__)))
+import C08 as X8  # noqa: E402   (an honest extender's reply for a signature)
 
 POLICIES = ["internal", "internal", "internal", "calendar", "key", "pubfile", "userpub", "general", "empty"]
 
@@ -118,6 +120,38 @@ def gen(rng, tier):
         v = "v:pubfile:-:0"
         yield "h %s %s" % (hx(base.enc()), " ".join([U(fa), v, U(fb), v, "s", U(fa), v, U(fc), v, v, "c"]))
         yield "h %s %s" % (hx(base.enc()), " ".join([U(fc), v, U(fa), v, "a:pubfile:-:0", U(fb), "a:pubfile:-:0", "s"]))
+    # the same URL, other content: with a cache lifetime of 0 every use fetches the file again
+    for _ in range(3 if not big else 30):
+        base = S.build(rng, with_cal=True, anchor="pub")
+        others = [(base.pub[0] - 86400 * 30, S.H(1, b"earlier")), (base.pub[0] + 86400 * 30, S.H(1, b"later"))]
+        fa, fb = signed_file(others + [base.pub]), signed_file(others)
+        fc = signed_file(others + [(base.pub[0], S.H(1, b"another hash for that time"))])
+        U = lambda f: "u:%s:%s:%s" % (hx(f), EMAIL, hx(pki.SUBJECT["emailAddress"].encode()))   # noqa: E731
+        UO = lambda f: "uo:%s" % hx(f)   # noqa: E731
+        v = rng.choice(["v:pubfile:-:0", "a:pubfile:-:0", "v:general:-:0"])
+        yield "h %s %s" % (hx(base.enc()), " ".join(["ttl:0", U(fa), v, UO(fb), v, "s", UO(fa), v, UO(fc), v, v, "c"]))
+        yield "h %s %s" % (hx(base.enc()), " ".join([U(fb), "ttl:0", v, UO(fa), v, UO(fc), v, "s"]))
+    # an extension that succeeds (honest reply through the file transport): the source stays what it was, the verdicts after it too
+    for _ in range(8 if not big else 100):
+        anchor = rng.choice(["pub", "auth", None])
+        base = S.build(rng, with_cal=True, anchor=anchor)
+        t = base.chains[0].time
+        root = X8.aggregation_root(base)
+        p = base.cal.pub_time + rng.choice([0, 1, 86400])
+        ver = rng.choice([1, 2])
+        good = X8.new_chain(rng, base, t, p, root)
+        rep = X8.reply(ver, 1, 0, good)
+        xp_rec = "xp:%d:%s:%s:-" % (ver, hx(rep), hx(X8.pubrec(p, good.root())))
+        xp_to = "xp:%d:%s:-:%d" % (ver, hx(rep), p)
+        xp_bad = "xp:%d:%s:%s:-" % (ver, hx(rep), hx(X8.pubrec(p, S.H(1, b"other root"))))
+        v = "v:internal:-:0"
+        yield "h %s %s" % (hx(base.enc()), " ".join(["s", v, xp_rec, "s", v, "c", xp_to, "s", xp_bad, "s", "v:general:-:0", xp_rec, "c"]))
+    # signatures at the upper end of the two-octet length form: content of 0xfffb..0xffff octets
+    for total in ((0xfffd, 0xfffe, 0xffff) if not big else (0xfffb, 0xfffc, 0xfffd, 0xfffe, 0xffff)):
+        base = S.build(rng, anchor=rng.choice([None, "pub"]))
+        body = len(base.enc()) - 4
+        base.extra = tlv(0x1f0, rng.randbytes(total - body - 4), nc=1, fwd=rng.random() < 0.5)
+        yield "h %s s c v:internal:-:0 s c" % hx(base.enc())
     # the repository's samples: a few operations on each
     res = os.path.join(core.REPO, "test", "resource", "tlv")
     if os.path.isdir(res):
